@@ -40,6 +40,12 @@ SEEDS = {
  "S-C19-2": ("C19", "update_hof treats scores within 1 % as ties (np.isclose rtol = 1e-2) and then prefers the smaller circuit",
              "two different scores within 1 % (infidelities 1 - 2^-k from 7 photons on, or non-dyadic metrics): a worse circuit "
              "is inserted above a better one, hall of fame unordered, result not the best"),
+ "S-C12-2": ("C12", "same change as S-C04-2 (find_incompatible_edges ignores classical-register edges), found independently for C12",
+             ">= 2 operations written to one classical register with add() on quantum registers not otherwise ordered, and an "
+             "edge pair that straddles them backwards: the pair is reported compatible and insert_at closes a cycle"),
+ "S-C20-2": ("C20", "same change as S-C01-2 (y_gate sign rule with OR), found independently for C20's wrapper clause",
+             "one of the six library wrappers containing SigmaY applied to a qubit on which a generating row has a Y "
+             "(|+i>, or the Choi state after a Phase gate): stabilizer backend wrong, density matrix right"),
  "S-C02-2": ("C02", "_time_reversed_measurement skips _single_out_emitter (emitter-emitter reduction and sign repair) when no emitter "
              "acts on a photon, assuming all emitters are then still |0>", "a disconnected target with contiguous blocks whose "
              "later block needs >= 2 emitters (smallest: n = 6, an edge plus a 4-vertex component; no graph on <= 5 vertices): "
@@ -123,6 +129,7 @@ STRENGTHENED = {
  "S-C15-2": "circuit families built through Identity placeholders and replace_op",
  "S-C16-2": "isomorph requests close to n! / |Aut|",
  "S-C19-2": "update_hof driven directly with synthetic populations incl. near ties (new clause HofUpdateRule)",
+ "S-C20-2": "wrapper order runs also on the Choi state after a Phase gate (generating rows with a Y)",
  "S-C02-2": "disjoint unions of connected 2-4 vertex blocks (n = 4..8) as targets",
  "S-C03-2": "6-8 vertex graphs, half of them chosen so that a cut block has different real and GF(2) rank",
  "S-C08-2": "graphs whose node insertion order is not the label order",
